@@ -17,15 +17,15 @@ type Desc struct {
 	Kind     string `json:"kind"` // xfer | unblock | e2e-cli | e2e-netconf
 	T        string `json:"transport"`
 	ReadSize int    `json:"read_size"`
-	Size     int    `json:"size,omitempty"`    // payload bytes per direction
-	Payload  string `json:"payload,omitempty"` // prng | debruijn
-	Mode     string `json:"mode,omitempty"`    // duplex | lockstep | updown
-	How      string `json:"how,omitempty"`     // unblock: close | peer-gone
-	Version  string `json:"version,omitempty"` // e2e-netconf: 1.0 | 1.1
+	Size     int    `json:"size,omitempty"`      // payload bytes per direction
+	Payload  string `json:"payload,omitempty"`   // prng | debruijn
+	Mode     string `json:"mode,omitempty"`      // duplex | lockstep | updown
+	How      string `json:"how,omitempty"`       // unblock: close | peer-gone
+	Version  string `json:"version,omitempty"`   // e2e-netconf: 1.0 | 1.1
 	Early    int    `json:"early,omitempty"`     // telnet xfer: bytes the peer sends immediately on accept (inside the client's negotiation window)
 	EarlyNeg bool   `json:"early_neg,omitempty"` // telnet xfer: preceded by three option negotiations
 	Cycles   int    `json:"cycles,omitempty"`    // cycle: Open/Close rounds on one Transport object
-	Paced    bool   `json:"paced,omitempty"`   // e2e-netconf: slow log sink (30 ms per lone return) + device that sends replies in two halves 80 ms apart
+	Paced    bool   `json:"paced,omitempty"`     // e2e-netconf: slow log sink (30 ms per lone return) + device that sends replies in two halves 80 ms apart
 	Seed     int64  `json:"seed"`
 }
 
